@@ -47,8 +47,13 @@ type expect struct {
 	IDTTL    int64    `json:"id_ttl_s"`
 	JWT      bool     `json:"jwt_access_token"`
 	// audience of a JWT access token: that of the underlying request (the client when the request has none)
-	ATAud  []string `json:"access_token_audience,omitempty"`
-	IDOnly bool     `json:"id_token_is_the_issued_token,omitempty"` // token exchange with requested id_token
+	ATAud []string `json:"access_token_audience,omitempty"`
+	// ATAudAsSet: the request object of the flow is the library's own type (device grant) and the library composes the
+	// audience from what the storage registered (RegAud) and the client. Judged as a set: the client must be in it
+	// ("audience contains the client"), every registered audience too, nothing else; order and repetition are grey.
+	ATAudAsSet bool     `json:"access_token_audience_judged_as_set,omitempty"`
+	RegAud     []string `json:"audience_registered_by_storage,omitempty"`
+	IDOnly     bool     `json:"id_token_is_the_issued_token,omitempty"` // token exchange with requested id_token
 }
 
 type finding struct {
@@ -282,6 +287,12 @@ func (j *judge) idToken(id, access string) {
 	}
 	if m["azp"] != x.Client {
 		j.fail("id_token:azp", "azp=%v, the client is %q", m["azp"], x.Client)
+	}
+	if x.ATAudAsSet {
+		run.Count("composed_aud:"+x.Step, "registered_"+e.d.ReqAud+"/id_token")
+		if len(x.RegAud) > 0 && !slices.Contains(x.RegAud, x.Client) {
+			run.Observed(x.Step + "_registered_audience_without_client:id_token:" + e.d.Router)
+		}
 	}
 	// --- nonce / auth_time / amr / acr ---
 	if x.Nonce != "" {
@@ -634,7 +645,9 @@ func (j *judge) accessToken(access string) {
 			j.fail("access_jwt:client_id", "client_id=%v, the client is %q", m["client_id"], x.Client)
 		}
 		aud := audList(m["aud"])
-		if !slices.Equal(aud, x.ATAud) {
+		if x.ATAudAsSet {
+			j.audAsSet(aud, m["aud"])
+		} else if !slices.Equal(aud, x.ATAud) {
 			j.fail("access_jwt:aud", "aud=%v, the underlying request's audience is %v", m["aud"], x.ATAud)
 		}
 		if slices.Contains(aud, x.Client) {
@@ -773,6 +786,35 @@ func (j *judge) accessToken(access string) {
 		} else {
 			run.Count("tokens", "refresh_token_ok")
 		}
+	}
+}
+
+// audAsSet judges the audience of a JWT access token of a flow whose request object the library composes itself
+// (expect.ATAudAsSet): "audience contains the client" literally, plus the audience of the underlying request.
+func (j *judge) audAsSet(aud []string, raw any) {
+	e, x, run := j.e, j.x, j.e.run
+	kind := "registered_" + e.d.ReqAud
+	if !slices.Contains(aud, x.Client) {
+		j.fail("access_jwt:aud-without-client", "aud=%v does not contain the client %q (audience registered on the underlying request: %v)", raw, x.Client, x.RegAud)
+	}
+	for _, a := range x.RegAud {
+		if !slices.Contains(aud, a) {
+			j.fail("access_jwt:aud-drops-request-audience", "aud=%v lacks %q, which the storage registered as audience of the underlying request (%v)", raw, a, x.RegAud)
+			break
+		}
+	}
+	for _, a := range aud {
+		if a != x.Client && !slices.Contains(x.RegAud, a) {
+			j.fail("access_jwt:aud-foreign", "aud=%v contains %q which is neither the client nor an audience of the underlying request (%v)", raw, a, x.RegAud)
+			break
+		}
+	}
+	if !slices.Equal(aud, x.ATAud) {
+		j.grey("access_jwt_aud_same_set_other_order_or_repetition")
+	}
+	run.Count("composed_aud:"+x.Step, kind+"/access_jwt")
+	if len(x.RegAud) > 0 && !slices.Contains(x.RegAud, x.Client) {
+		run.Observed(x.Step + "_registered_audience_without_client:access_jwt:" + e.d.Router)
 	}
 }
 
